@@ -924,7 +924,8 @@ class DFA:
             # (nothing points at the starting state yet: see chain_actions_at_end; and the target of an action -- the handler an append that does not
             # fit leaves for -- is entered without taking a transition at all)
             jumped_to = set(target for transition in self.all_transitions() for action in transition.actions for sub in action.all_subactions() for target in sub.get_target_override_targets())
-            entered_otherwise = [x for x in sub_states if x is self.starting_state or x in jumped_to]
+            # A state that goes on matching is not left for good when it is entered either (the pattern of a greedy clause that a longer one continues).
+            entered_otherwise = [x for x in sub_states if x is self.starting_state or x in jumped_to or any(not t.error_handling for t in x.transitions)]
             self.chain_actions_into(chain_actions, [x for x in sub_states if x not in entered_otherwise])
             if entered_otherwise:
                 sub_states = [x for x in sub_states if x not in entered_otherwise] + [self.append_action_step(chain_actions, entered_otherwise)]
